@@ -88,12 +88,16 @@ def makeV1Key (h : Hashes) (prefix_ key : List Char) : Except Err (List Char) :=
   let suffix ← if (safe.length : Int) ≤ 63 - (pfx.length : Int) then pure [] else suffixOf h safe
   pure (pfx ++ pySliceTo safe (63 - (pfx.length : Int) - (suffix.length : Int)) ++ suffix)
 
-/-- `make_keys(key)` after marking: V2 first, then V1 when enabled and different. -/
+/-- `make_keys(key)` after marking: V2 first, then V1 when enabled, when it can fit at all
+    (`len(prefix + '/') + len(make_suffix('')) < 63`, kopf e916847) and when different. -/
 def makeKeys (h : Hashes) (v1 : Bool) (prefix_ key : List Char) : Except Err (List String) := do
   let k2 ← makeV2Key h prefix_ key
   if v1 then
-    let k1 ← makeV1Key h prefix_ key
-    if k1 == k2 then pure [String.ofList k2] else pure [String.ofList k2, String.ofList k1]
+    let sfx0 ← suffixOf h []
+    if prefix_.length + 1 + sfx0.length < 63 then
+      let k1 ← makeV1Key h prefix_ key
+      if k1 == k2 then pure [String.ofList k2] else pure [String.ofList k2, String.ofList k1]
+    else pure [String.ofList k2]
   else pure [String.ofList k2]
 
 /-- the condition of `CollisionEvadingConvention.mark_key`. -/
